@@ -286,6 +286,100 @@ pub fn voicing_switches(ctx: &mut Ctx) {
     });
 }
 
+/// The postfilter as the property states it, written from the definition: b = mel-cepstrum in
+/// filter form; order 1 compensated, orders >= 2 times (1 + beta); order 0 shifted so that the
+/// energy of the impulse response — (1/pi) * integral of exp(2 ln|H|) — is what it was.
+fn reference_postfilter(c: &[f64], alpha: f64, beta: f64) -> Vec<f64> {
+    let n = c.len();
+    if !(beta > 0.0 && n > 2) {
+        return c.to_vec();
+    }
+    let energy = |c: &[f64]| -> f64 {
+        let grid = 4096;
+        let mut s = 0.0;
+        for i in 0..=grid {
+            let w = std::f64::consts::PI * i as f64 / grid as f64;
+            let v = (2.0 * mcep_logspec(c, alpha, w)).exp();
+            s += if i == 0 || i == grid { 0.5 * v } else { v };
+        }
+        s / grid as f64
+    };
+    let mut b = c.to_vec();
+    for i in (0..n - 1).rev() {
+        b[i] = c[i] - alpha * b[i + 1];
+    }
+    let e1 = energy(c);
+    b[1] -= beta * alpha * b[2];
+    for x in b.iter_mut().skip(2) {
+        *x *= 1.0 + beta;
+    }
+    let mut out = b.clone();
+    for i in (0..n - 1).rev() {
+        out[i] = b[i] + alpha * b[i + 1];
+    }
+    let e2 = energy(&out);
+    out[0] += (e1 / e2).ln() / 2.0;
+    out
+}
+
+/// A spectrum that moves from frame to frame: rendering with beta equals rendering without
+/// beta of the reference-postfiltered frames (after two warm-up frames), sample by sample.
+pub fn moving_spectrum(ctx: &mut Ctx) {
+    use crate::synth::NODATA;
+    let n = ctx.n(48, 1200);
+    ctx.run_cases("moving-spectrum", n, false, |ctx, rng, idx| {
+        let rate = 8000usize;
+        let p = 400usize;
+        let order = rng.range(3, 26);
+        let alpha = alpha_pick(rng);
+        let beta = rng.uniform(0.1, 0.5);
+        let frames = 8;
+        let lf0: Vec<f64> = (0..frames).map(|t| if t >= 2 && rng.chance(0.25) { NODATA } else { 5.0 + 0.02 * t as f64 }).collect();
+        let mut cs: Vec<Vec<f64>> = Vec::new();
+        for t in 0..frames {
+            if t == 1 {
+                let first = cs[0].clone();
+                cs.push(first);
+            } else {
+                let target = rng.uniform(0.2, 0.9);
+                cs.push(random_cepstrum(rng, order, alpha, target));
+            }
+        }
+        let render = |beta: f64, cs: &[Vec<f64>]| -> Vec<f64> {
+            let mut v = Vocoder::new(order, 0, 0, false, rate, alpha, beta, 1.0, p);
+            let mut out = Vec::with_capacity(frames * p);
+            let mut buf = vec![0.0; p];
+            for (t, c) in cs.iter().enumerate() {
+                v.synthesize(lf0[t], c, &[], &mut buf);
+                out.extend_from_slice(&buf);
+            }
+            out
+        };
+        let y = render(beta, &cs);
+        let refs: Vec<Vec<f64>> = cs.iter().map(|c| reference_postfilter(c, alpha, beta)).collect();
+        let want = render(0.0, &refs);
+        let peak = want.iter().skip(2 * p).fold(0.0f64, |m, x| m.max(x.abs()));
+        let mut worst = 0.0f64;
+        let mut at = 0;
+        for k in 2 * p..y.len() {
+            let d = (y[k] - want[k]).abs();
+            if d > worst || d.is_nan() {
+                worst = d;
+                at = k;
+            }
+        }
+        ctx.max("moving_spectrum_worst_relative_deviation", worst / peak.max(1e-300));
+        ctx.count("moving_spectrum_frames_compared", (frames - 2) as f64);
+        if !(worst <= 1e-5 * peak) {
+            ctx.violation(
+                "postfilter-differs-on-a-moving-spectrum",
+                J::obj().set("order", order).set("alpha", alpha).set("beta", beta).set("worst_abs_deviation", worst).set("peak", peak).set("at_frame", at / p).set("voiced_frames", J::Arr(lf0.iter().map(|l| J::from((*l != NODATA) as usize)).collect())),
+            );
+        }
+        ctx.nontrivial(mix(&[0x77, order as u64, (beta * 100.0) as u64, idx as u64]));
+    });
+}
+
 pub fn end_to_end(ctx: &mut Ctx) {
     use crate::env::{Cond, Env};
     use crate::mon::c01::load_synthetic;
